@@ -66,7 +66,7 @@ var errStuck = errors.New("engine did not process the message within the bound")
 // return. Real handlers may legitimately block (a blocking request waits for
 // data) or act on their own (auto-replies); both end the lock-step trace as a
 // "cut" - never as a verdict - so a short bound only costs coverage.
-const realHandlerWait = 500 * time.Millisecond
+const realHandlerWait = 250 * time.Millisecond
 
 var errAutonomous = errors.New("the object under test made a transition of its own")
 
@@ -292,7 +292,7 @@ func driveTrace(b *binding, impl implAuto, role protocol.ProtocolRole, useReal b
 		res.mismatch = &stepVerdict{key: "engine:" + b.id + ":" + key, what: what}
 		return res
 	}
-	for _, sym := range seq {
+	for si, sym := range seq {
 		ag := impl.agencyOf(cur)
 		if ag == agNone {
 			if !e.p.IsDone() {
@@ -369,6 +369,11 @@ func driveTrace(b *binding, impl implAuto, role protocol.ProtocolRole, useReal b
 		if ev.To.Name != wantTo {
 			return mis(fmt.Sprintf("%s:%s:to", cur, sym),
 				fmt.Sprintf("%s: %s --%s--> engine %s, simulation %s", b.id, cur, sym, ev.To.Name, wantTo))
+		}
+		if useReal && si == len(seq)-1 && impl.agencyOf(wantTo) != agNone {
+			// last step of a real-object trace: the verdict is in; do not wait for a
+			// handler that may block
+			return res
 		}
 		if local {
 			if err := e.awaitSent(); err != nil {
